@@ -18,7 +18,11 @@ def gen_conc(seed, idx):
         p["keys"] = [0, 1]
         p["lids"] = [0, 1, 2]
     if name == "race":
-        p["keys"] = [1]
+        if rng.random() < 0.5:
+            p["cfg"] = {"fastkeys": 1}
+            p["keys"] = [1, 2]
+        else:
+            p["keys"] = [1]
         p["lids"] = [1, 2, 3]
         p["counts"] = rng.choice([[0], [0, 1]])
     steps = []
@@ -46,6 +50,9 @@ def gen_conc(seed, idx):
         if rng.random() < 0.6:
             ops.append({"op": "tick"})
         sched = [rng.randint(0, 7) for _ in range(rng.randint(4, 40))]
-        steps.append({"op": "par", "ops": ops, "sched": sched})
+        step = {"op": "par", "ops": ops, "sched": sched}
+        if rng.random() < 0.5:
+            step["gates"] = ["mgr.fast.alloc", "mgr.slow.enter"]     # yield points inside the key table (finding A16)
+        steps.append(step)
     steps.append({"op": "drain", "n": maxT + 6})
     return {"name": f"conc-{name}-{seed}-{idx}", "cfg": p.get("cfg", {}), "steps": steps, "complete": True}
